@@ -586,6 +586,14 @@ func (sr *storeRun) sequential() *Verdict {
 						return
 					}
 					if sr.p.id != "C07" {
+						// the caller tries the same call again once the disk behaves; whatever it
+						// answers now, the layout on disk must be valid afterwards as well
+						got2 := execOp(ctx, sr.store, g, op)
+						simrt.Observe(func() { d = checkLayout(sr.dir) })
+						if d != "" {
+							v = violation("layout-invalid", "", "after step %d %s failed with EIO in disk operation %d (result %s) and was repeated (result %s): %s\nhistory: %v", i, op, op.FailMut, got, got2, d, opsString(sp.Ops[:i+1]))
+						}
+						sr.info.Probes["operation_repeated_after_disk_error"]++
 						return
 					}
 					// C07 goes on: its ground truth is what the store itself holds, so a manifest that
